@@ -15,7 +15,7 @@ PROPERTY = "C15"
 LEVEL = "exploration"
 RULE = (
     "Hypothesis RuleBasedStateMachine over one temporary directory: rule export(path in {m.onnx, sub/m.onnx, other.onnx, rel path}, parameter "
-    "size class in {none, small, 1 MiB threshold -1 element, threshold +1 element, large, two large, int8 large}, export_mode in {standard, web}, "
+    "size class in {none, small, 1 MiB threshold -1 element, threshold +1 element, large, two large, int8 large}, export_mode in {standard, web} in canonical and accepted non-canonical spellings (case, surrounding blanks), "
     "salt) with paths reused across steps (standard->web, large->small, web->standard), <=6 steps per history. Invariant after every step, for "
     "the one request: proto == to_proto(ir) bytewise (deterministic serialization); the reloaded file has the same node list/attributes/I-O and "
     "every initializer has the same dims, dtype and SHA-256 of its decoded bytes (external data resolved relative to the file); ORT outputs of "
@@ -68,6 +68,13 @@ def struct(m):
             [i.name for i in m.graph.input], [o.name for o in m.graph.output])
 
 
+MODE_SPELLINGS = ["standard", "web", "standard", "web", "Web", " WEB ", "Standard", "web ", "STANDARD"]
+
+
+def _canon(mode):
+    return mode.lower().strip()
+
+
 def run_history(steps, root, acc=None):
     """Executes export steps; returns list of violation dicts (first failing step only)."""
     import onnx
@@ -75,14 +82,15 @@ def run_history(steps, root, acc=None):
     from vf import jaxutil, onnxutil
 
     prev = {}
-    for idx, (path, size, mode, salt) in enumerate(steps):
+    for idx, (path, size, raw_mode, salt) in enumerate(steps):
+        mode = _canon(raw_mode)  # the documented normalisation (case / surrounding blanks); the raw spelling goes to to_onnx
         fn, shape = make_fn(size, salt)
         full = os.path.join(root, path)
         problems = []
         try:
             proto = jaxutil.to_onnx(fn, [shape])
             irp = ir.to_proto(jaxutil.to_onnx(fn, [shape], return_mode="ir"))
-            ret = jaxutil.to_onnx(fn, [shape], return_mode="file", output_path=full, export_mode=mode)
+            ret = jaxutil.to_onnx(fn, [shape], return_mode="file", output_path=full, export_mode=raw_mode)
         except Exception as e:
             problems.append(("export_raised", f"{type(e).__name__}: {str(e)[:200]}"))
             ret = None
@@ -161,7 +169,7 @@ def work(sh):
             self.steps = []
             self.dead = False
 
-        @rule(path=st.sampled_from(PATHS), size=st.sampled_from(sorted(SIZES)), mode=st.sampled_from(["standard", "web"]), salt=st.integers(0, 3))
+        @rule(path=st.sampled_from(PATHS), size=st.sampled_from(sorted(SIZES)), mode=st.sampled_from(MODE_SPELLINGS), salt=st.integers(0, 3))
         def export(self, path, size, mode, salt):
             if self.dead:
                 return
@@ -203,7 +211,7 @@ def run_history_incremental(steps, root, prev, acc):
     # temporarily seed prev so overwrite/transition bookkeeping is right
     path = steps[-1][0]
     vs = _run_with_prev(only_last, steps, root, prev, acc)
-    prev[path] = (steps[-1][2], steps[-1][1])
+    prev[path] = (_canon(steps[-1][2]), steps[-1][1])
     return vs
 
 
@@ -212,13 +220,15 @@ def _run_with_prev(last, all_steps, root, prev, acc):
         pass
 
     # run_history computes `prev` itself from the steps it executes; emulate prior writes by a wrapper Acc
-    path, size, mode, salt = last[0]
+    path, size, raw_mode, salt = last[0]
+    mode = _canon(raw_mode)
     overwrite = bool(prev.get(path)) and prev[path] != (mode, size)
     vs = run_history(last, root, None)
     if acc:
         acc.case(key=digest([list(s) for s in all_steps]), nontrivial=overwrite)
         acc.tally("size_class", size)
         acc.tally("mode", mode)
+        acc.tally("mode_spelling", "canonical" if raw_mode == mode else "case_or_blank_variant")
         if overwrite:
             acc.count("overwrites_other_mode_or_size")
             acc.tally("transitions", f"{prev[path][0]}/{prev[path][1]}->{mode}/{size}")
